@@ -32,6 +32,7 @@ EXPLANATION = (
     " (R7) read_setting asks the inverter on every path that returns a value derived from the object's state (no remembered answers), so a getter after a setter sees the new value."
     " (R8) valid arguments are accepted: a setter path that ends without a write is infeasible for power 1..100, SoC 0..100, DoD 0..100, export limit >= 0; (R3 switch-offset) eco_mode_N_switch is the on_off byte of eco_mode_N; (R4) the recognisers' power bound admits the group encoded for 1 %."
     ' (R4 :soc) the soc field of the charge template is the SoC argument itself.'
+    ' (R9, shared with C16.R1) the read behind the getters (ET._read_sensor, ES._read_setting) requests ceil(size_/2) registers at the setting and decodes the answer from its first byte.'
 )
 
 
@@ -76,6 +77,9 @@ def check(ctx: Ctx, rep: Report):
     r7(ctx, rep)
     rep.rule("C19.R8", "valid arguments are accepted: a path of a setter that ends without writing (ValueError, silent return) is infeasible for arguments inside the documented domain", 5)
     r8(ctx, rep)
+    rep.rule("C19.R9", "the getters' read-back asks for exactly the setting's registers and decodes the answer from its first byte (shared with C16.R1; ET and ES)", 2)
+    from .c16 import single_read_form
+    single_read_form(ctx, rep, "C19.R9", ("ET", "ES"))
 
 
 def r8(ctx: Ctx, rep: Report):
@@ -472,6 +476,51 @@ def offered_modes(ctx: Ctx, fn: FuncInfo) -> List[Tuple[str, Set[str]]]:
     return out
 
 
+def _self_calls_closure(prog, ci, holder: FuncInfo, call: ast.Call, depth: int = 0):
+    """(function holding the call, call) for *call* and, when it is self.<private helper>(...), for the self-calls in
+    that helper's body, transitively (the mode helpers of ES: _set_general_mode -> _set_limit_power_for_charge(0, ...))."""
+    out = [(holder, call)]
+    c = call_chain(call)
+    if c and len(c) == 2 and c[0] == "self" and c[1].startswith("_") and depth < 3:
+        m = prog.find_method(ci, c[1])
+        if m is not None:
+            for n in ast.walk(m.node):
+                if isinstance(n, ast.Call) and (call_chain(n) or ("",))[0] == "self" and len(call_chain(n)) == 2:
+                    out += _self_calls_closure(prog, ci, m, n, depth + 1)
+    return out
+
+
+def _const_call_rejected(prog, ci, caller: FuncInfo, call: ast.Call):
+    """self.<helper>(<constants>): None when not such a call; '' when the helper's leading argument guards
+    (`if <test over the parameters>: raise ...`) let the constants through; else the reason."""
+    c = call_chain(call)
+    if not c or len(c) != 2 or c[0] != "self" or call.keywords or not call.args:
+        return None
+    m = prog.find_method(ci, c[1])
+    if m is None or len(m.params) - 1 != len(call.args):
+        return None
+    env = {}
+    for prm, a in zip(m.params[1:], call.args):
+        try:
+            env[prm] = prog.consteval(a, caller.module)
+        except NotConst:
+            return None
+    for st in m.node.body:
+        if isinstance(st, ast.Expr) and isinstance(st.value, ast.Constant):
+            continue
+        if not (isinstance(st, ast.If) and not st.orelse and len(st.body) == 1 and isinstance(st.body[0], ast.Raise)):
+            break
+        names = {n.id for n in ast.walk(st.test) if isinstance(n, ast.Name)}
+        if not names <= set(env):
+            break
+        try:
+            if prog.consteval(st.test, m.module, dict(env)):
+                return "raises for these arguments (%s is true for %s)" % (norm(st.test), ", ".join("%s=%r" % (k, env[k]) for k in sorted(names)))
+        except NotConst:
+            break
+    return ""
+
+
 def r2(ctx: Ctx, rep: Report):
     prog = ctx.prog
     for famname in ("ET", "ES"):
@@ -483,6 +532,8 @@ def r2(ctx: Ctx, rep: Report):
         # branches of the setter that write and do not raise
         handled: Set[str] = set()
         raising: Set[str] = set()
+        const_seen: Set[int] = set()
+        nconst = [0]
         for p in enumerate_paths(prog, s, no_raise):
             sel = mode_of_path(ctx, p, s.params[1])
             if sel is None:
@@ -499,6 +550,24 @@ def r2(ctx: Ctx, rep: Report):
                 raising |= sel
             elif has_effect and len(sel) <= 2:
                 handled |= sel
+            # ... and the helpers it calls with constant arguments accept those constants (a guard `if limit <= 0: raise`
+            # in front of `_set_limit_power_for_charge(0, 0, 0, 0, 0)` makes the whole mode fail)
+            if p.end != "raise":
+                for ev in p.events:
+                    if ev.kind != "call":
+                        continue
+                    for holder, call in _self_calls_closure(prog, ci, s, ev.node):
+                        if id(call) in const_seen:
+                            continue
+                        const_seen.add(id(call))
+                        why = _const_call_rejected(prog, ci, holder, call)
+                        if why:
+                            raising |= sel
+                            rep.violation("C19.R2", "const-call:%s:%s" % (famname, norm(call)[:60]), holder.loc(call),
+                                          "%s.set_operation_mode(%s) reaches %s in %s, which %s: the mode cannot be set" % (famname, "/".join(sorted(sel)), norm(call)[:70], holder.short, why))
+                        elif why is not None:
+                            nconst[0] += 1
+        rep.ok("C19.R2", "const-calls:%s" % famname, s.loc(), "%s.set_operation_mode: %d helper call(s) with constant arguments pass the helper's own argument guards" % (famname, nconst[0]))
         for cond, offered in offers:
             missing = sorted(m for m in offered if m not in handled or m in raising)
             rep.check(not missing, "C19.R2", "offered:%s:%s" % (famname, cond), g.loc(), "%s offers %s (%s): all handled by set_operation_mode" % (famname, sorted(offered), cond),
@@ -744,7 +813,7 @@ def r4(ctx: Ctx, rep: Report):
 
     # The three methods are pure functions of (enum member, int): they are constant-folded for every percentage the
     # setters can request (-100 .. 100) - encode, range check of the encoded value, decode.
-    from ..constfold import fold_function
+    from ..constfold import fold_function, FoldRaises
     members = prog.enum_members(st)
     for member in ("ECO_MODE", "ECO_MODE_745"):
         if member not in members:
@@ -768,6 +837,27 @@ def r4(ctx: Ctx, rep: Report):
                   bad="ScheduleType.%s: %s %% is encoded as %s and decoded as %s - the requested eco power does not read back" % ((member,) + (bad_scale or (0, 0, 0))))
         rep.check(bad_range is None, "C19.R4", "power-range:%s" % member, rng.loc(), "%s: is_in_range admits the encoding of every p in -100..100" % member,
                   bad="ScheduleType.%s: is_in_range refuses %s, the encoding of %s %%: the written group cannot be read back" % ((member,) + ((bad_range or (0, 0))[::-1])))
+        # the type itself reads back: the templates write on_off = 255 - type (enabled) / type (encode_off); the decoder
+        # reads the byte signed and hands it to detect_schedule_type, which must give the same member again - otherwise the
+        # recogniser's on_off == -1 - schedule_type compares against another type (or the group is refused)
+        det = st.methods.get("detect_schedule_type")
+        if det is None:
+            raise AnalysisError("ScheduleType.detect_schedule_type missing")
+        tv = int(members[member])
+        got = {}
+        for what, byte in (("enabled", _signed(255 - tv, 1)), ("disabled", _signed(tv, 1))):
+            try:
+                static = any(norm(d) == "staticmethod" for d in det.node.decorator_list)
+                got[what] = fold_function(prog, det, args=({det.params[0]: byte} if static else {det.params[0]: st, det.params[1]: byte}))
+            except FoldRaises as ex:
+                got[what] = "an error (%s)" % ex
+            except NotConst as ex:
+                raise AnalysisError("ScheduleType.detect_schedule_type cannot be folded for %s: %s" % (member, ex))
+        wrong = {k: v for k, v in got.items() if v != members[member]}
+        rep.check(not wrong, "C19.R4", "type-detect:%s" % member, det.loc(), "%s: detect_schedule_type gives the type back for the on_off byte of an enabled (%d) and a disabled (%d) group" % (
+                      member, _signed(255 - tv, 1), tv),
+                  bad="ScheduleType.detect_schedule_type: the on_off byte written for a %s group of type %s is read back as %s: the group set by set_operation_mode is not recognised by get_operation_mode" % (
+                      "/".join(sorted(wrong)), member, ", ".join(str(v) for v in wrong.values())))
 
 
 def _signed(v: int, nbytes: int) -> int:
